@@ -138,6 +138,20 @@ Theorem unsigned_key_test_is_vacuous :
 Proof. exact (conj nondec_wrapped_always_proof unsigned_key_test_accepts_unsorted_proof). Qed.
 Print Assumptions unsigned_key_test_is_vacuous.
 
+(* the `sorted=sorted` flag of the broadcast_to site: the GENERATED statements that compute it are exactly
+   "all consecutive non-broadcast axes differ by 1" (an `any`, another test or another list no longer matches), that
+   expression is C08's `adjacent`, and under it the expanded coordinates are in row-major order
+   (C08.broadcast_to_sorted_rule_sound); the `any` reading would promise order for (2,3,1,4) -> (2,3,5,4) *)
+Theorem broadcast_to_sorted_flag_sound :
+  list_eqb3 broadcast_sorted_rule broadcast_sorted_expected = true
+  /\ (forall (V : Type) (x : coo V) (params : list (option bool)) (bs : shape),
+        canonical V x -> ShapeOpsP.aligned params (c_shape x) bs ->
+        all_diffs_one (ShapeOps.true_positions params 0) = true ->
+        StronglySorted lex_lt (map fst (ShapeOps.expand_entries params bs (entries x))))
+  /\ (any_diff_one [0; 1; 3] = true /\ all_diffs_one [0; 1; 3] = false).
+Proof. exact (conj (eq_refl : list_eqb3 broadcast_sorted_rule broadcast_sorted_expected = true) (conj cite_broadcast_flag_sound any_diff_one_unsound)). Qed.
+Print Assumptions broadcast_to_sorted_flag_sound.
+
 (* an absent flag promises nothing: the defaults of COO.__init__ are sorted=False,
    has_duplicates=True (prune=False), of GCXS.__init__ prune=False *)
 Theorem constructor_defaults_promise_nothing :
